@@ -1663,7 +1663,9 @@ fn process_stream_search_params<T: Read + Write>(
     }
 
     // perform the search now synchronous/blocking:
-    let mut search_idxs: Vec<DltMessageIndexType> = Vec::with_capacity(max_results);
+    // max_results comes from the client: dont reserve more than could ever be found
+    let mut search_idxs: Vec<DltMessageIndexType> =
+        Vec::with_capacity(std::cmp::min(max_results, all_msgs.len()));
 
     // check msgs from _processed_len to all_msgs_len
     // todo use parallel iterator
